@@ -98,8 +98,16 @@ class ArrEvaluator(Evaluator):
         if isinstance(base, (ArrV, IdxV)):
             # 2-d column selection  cil[:, 0]
             if isinstance(e.slice, ast.Tuple) and len(e.slice.elts) == 2 and isinstance(e.slice.elts[0], ast.Slice) \
-                    and isinstance(e.slice.elts[1], ast.Constant) and isinstance(base, IdxV):
-                return IdxV(f"{base.desc}.col{e.slice.elts[1].value}")
+                    and isinstance(base, IdxV):
+                c_ = e.slice.elts[1]
+                k_ = c_.value if isinstance(c_, ast.Constant) else (
+                    -c_.operand.value if (isinstance(c_, ast.UnaryOp) and isinstance(c_.op, ast.USub) and isinstance(c_.operand, ast.Constant)) else None)
+                if isinstance(k_, int):
+                    # column 0 of the block of a branch is its first slot; the LAST column is the end of the padded block, which is
+                    # the last compartment only for a branch that is not padded -- kept distinct from last(...)
+                    if k_ == 0 and base.desc.startswith("branch(") and base.sel is None:
+                        return IdxV("first(" + base.desc[len("branch("):])
+                    return IdxV(f"{base.desc}.col{k_}")
             sl = self._try(e.slice, env, ctx)
             if isinstance(sl, SelV):
                 if isinstance(base, ArrV):
